@@ -76,6 +76,10 @@ type FuncContract struct {
 	Pure     bool
 	File     string
 	Ghost    []string
+	// CallSites: assumed effect of calls to external functions made by this function, stated over
+	// the caller's variables (e.g. sort.SliceStable with this function's comparator)
+	CallSites map[string]*FuncContract
+	Witnesses []ParamDecl // fresh logical values available to the ensures of a call-site contract
 }
 
 func (fc *FuncContract) FullKey() string { return fc.Pkg + "::" + fc.Key }
@@ -90,7 +94,7 @@ type Contracts struct {
 	Ghosts map[string]ParamDecl // ghost globals: name -> type
 }
 
-var kwRe = regexp.MustCompile(`^(func|trusted func|pure|inline|pred|specfn|lock|ghost|requires|ensures|modifies|let|loop|invariant|prop|check|opt|axiom|rely|havoc|protects|recv)\b`)
+var kwRe = regexp.MustCompile(`^(func|trusted func|pure|inline|pred|specfn|lock|ghost|requires|ensures|modifies|let|loop|invariant|prop|check|opt|axiom|rely|havoc|protects|recv|callsite|witness)\b`)
 
 func implicit(text string) string { return strings.TrimSpace(text) }
 
@@ -163,6 +167,7 @@ func (cs *Contracts) parseFile(root, file string) error {
 		}
 	}
 	var cur *FuncContract
+	var owner *FuncContract // the function contract a callsite block belongs to
 	var curLoop *LoopContract
 	var curLock *LockDecl
 	var curPred *Pred
@@ -180,6 +185,7 @@ func (cs *Contracts) parseFile(root, file string) error {
 				return fmt.Errorf("%s: duplicate contract for %s (first in %s)", d.pos, cur.FullKey(), old.File)
 			}
 			cs.Funcs[cur.FullKey()] = cur
+			owner = nil
 			curLoop, curLock, curPred = nil, nil, nil
 		case "inline":
 			if d.text == "" && cur != nil {
@@ -274,7 +280,38 @@ func (cs *Contracts) parseFile(root, file string) error {
 			default:
 				return fmt.Errorf("%s: invariant outside loop/lock", d.pos)
 			}
+		case "callsite":
+			host := cur
+			if owner != nil {
+				host = owner
+			}
+			if host == nil {
+				return fmt.Errorf("%s: callsite outside func", d.pos)
+			}
+			owner = host
+			cs2 := &FuncContract{Pkg: host.Pkg, Key: host.Key + "@" + d.text, Loops: map[int]*LoopContract{}, Checks: map[string]bool{}, Opts: map[string]string{}, File: file, Trusted: true}
+			if host.CallSites == nil {
+				host.CallSites = map[string]*FuncContract{}
+			}
+			host.CallSites[strings.TrimSpace(d.text)] = cs2
+			cur, curLoop = cs2, nil
+		case "witness":
+			if cur == nil {
+				return fmt.Errorf("%s: witness outside callsite", d.pos)
+			}
+			parts := strings.SplitN(d.text, " ", 2)
+			if len(parts) != 2 {
+				return fmt.Errorf("%s: witness <name> <type>", d.pos)
+			}
+			te, err := parser.ParseExpr(parts[1])
+			if err != nil {
+				return fmt.Errorf("%s: %v", d.pos, err)
+			}
+			cur.Witnesses = append(cur.Witnesses, ParamDecl{Name: parts[0], Type: te})
 		case "loop":
+			if owner != nil {
+				cur, owner = owner, nil
+			}
 			if cur == nil {
 				return fmt.Errorf("%s: loop outside func", d.pos)
 			}
